@@ -244,11 +244,10 @@ class PixCoord:
         """
         dx = self.x - center.x
         dy = self.y - center.y
-        vec = np.array([dx, dy])
 
+        # apply the rotation matrix element-wise so that coordinate
+        # arrays of any dimension are rotated correctly
         cosa, sina = np.cos(angle), np.sin(angle)
-        rotation_matrix = np.array([[cosa, -sina], [sina, cosa]])
-
-        vec = np.matmul(rotation_matrix, vec)
+        vec = (cosa * dx - sina * dy, sina * dx + cosa * dy)
 
         return self.__class__(center.x + vec[0], center.y + vec[1])
